@@ -282,7 +282,6 @@ func (b InsertBuilder) innerWriteSQL(sb *SQLBuilder) {
 	}
 	if b.valueLists != nil && b.query != nil {
 		sb.AddError(ErrInsertValuesAndQuery)
-		return
 	}
 	if b.query != nil {
 		sb.WriteString(" ")
@@ -326,7 +325,6 @@ func (b InsertBuilder) innerWriteSQL(sb *SQLBuilder) {
 		sb.WriteString("ON CONFLICT")
 		if b.conflictConstraintName != "" && len(b.conflictTargets) > 0 {
 			sb.AddError(ErrInsertConflictConstraintAndTarget)
-			return
 		}
 		if b.conflictConstraintName != "" {
 			sb.WriteString(" ON CONSTRAINT ")
